@@ -1,2 +1,3 @@
 import MC.Props.C18
 import MC.Props.C17
+import MC.Props.C12
